@@ -702,34 +702,39 @@ def t8_unique_name():
     if len(inner) != 1:
         raise Refusal(item, "from_list does not define unique_node_name")
     fn = inner[0]
-    if [a.arg for a in fn.args.args] != ["node", "counts"]:
+    if len(fn.args.args) != 2:
         raise Refusal(item, f"unique_node_name parameters: {[a.arg for a in fn.args.args]}")
+    p_node, p_counts = [a.arg for a in fn.args.args]
     body = [st for st in fn.body if not (isinstance(st, ast.Expr) and isinstance(st.value, ast.Constant))]
     if len(body) != 5:
         raise Refusal(item, f"unique_node_name has {len(body)} statements, expected 5")
-    want0 = "Assign(targets=[Name(id='basename', ctx=Store())], value=Call(func=Attribute(value=Attribute(value=Attribute(" \
-            "value=Name(id='node', ctx=Load()), attr='__class__', ctx=Load()), attr='__name__', ctx=Load()), attr='lower', " \
-            "ctx=Load()), args=[], keywords=[]))"
-    if ast.dump(body[0]).replace(", type_comment=None", "") != want0 and ast.dump(body[0]) != want0:
-        raise Refusal(item, "basename is not node.__class__.__name__.lower()")
-    want1 = "Assign(targets=[Name(id='id', ctx=Store())], value=Subscript(value=Name(id='counts', ctx=Load()), " \
-            "slice=Name(id='basename', ctx=Load()), ctx=Load()))"
-    if ast.dump(body[1]) != want1:
-        raise Refusal(item, "id is not counts[basename]")
+    # roles of the locals are read off the statements, so renaming them is harmless
+    st0, st1 = body[0], body[1]
+    if not (isinstance(st0, ast.Assign) and len(st0.targets) == 1 and isinstance(st0.targets[0], ast.Name) and ast.dump(st0.value) ==
+            f"Call(func=Attribute(value=Attribute(value=Attribute(value=Name(id='{p_node}', ctx=Load()), attr='__class__', ctx=Load()), "
+            "attr='__name__', ctx=Load()), attr='lower', ctx=Load()), args=[], keywords=[])"):
+        raise Refusal(item, "the base name is not <node>.__class__.__name__.lower()")
+    v_base = st0.targets[0].id
+    if not (isinstance(st1, ast.Assign) and len(st1.targets) == 1 and isinstance(st1.targets[0], ast.Name) and ast.dump(st1.value) ==
+            f"Subscript(value=Name(id='{p_counts}', ctx=Load()), slice=Name(id='{v_base}', ctx=Load()), ctx=Load())"):
+        raise Refusal(item, "the index is not <counts>[<base name>]")
+    v_id = st1.targets[0].id
     st2, st3, st4 = body[2], body[3], body[4]
-    if not (isinstance(st2, ast.Assign) and len(st2.targets) == 1 and isinstance(st2.targets[0], ast.Name) and st2.targets[0].id == "name"):
-        raise Refusal(item, "third statement is not `name = ...`")
+    if not (isinstance(st2, ast.Assign) and len(st2.targets) == 1 and isinstance(st2.targets[0], ast.Name)):
+        raise Refusal(item, "third statement is not `<name> = ...`")
+    v_name = st2.targets[0].id
     if not (isinstance(st3, ast.AugAssign) and isinstance(st3.op, ast.Add) and ast.dump(st3.target) ==
-            "Subscript(value=Name(id='counts', ctx=Load()), slice=Name(id='basename', ctx=Load()), ctx=Store())"
+            f"Subscript(value=Name(id='{p_counts}', ctx=Load()), slice=Name(id='{v_base}', ctx=Load()), ctx=Store())"
             and isinstance(st3.value, ast.Constant) and isinstance(st3.value.value, int) and not isinstance(st3.value.value, bool)):
-        raise Refusal(item, "fourth statement is not `counts[basename] += <int literal>`")
-    if not (isinstance(st4, ast.Return) and isinstance(st4.value, ast.Name) and st4.value.id == "name"):
-        raise Refusal(item, "fifth statement is not `return name`")
-    # the counter the names are drawn from starts empty: `counts = Counter()` in from_list
+        raise Refusal(item, "fourth statement is not `<counts>[<base name>] += <int literal>`")
+    if not (isinstance(st4, ast.Return) and isinstance(st4.value, ast.Name) and st4.value.id == v_name):
+        raise Refusal(item, "fifth statement is not `return <name>`")
+    # the counter the names are drawn from starts empty: `<counts> = Counter()` in from_list, passed to the helper
     starts = [n for n in fl.body if isinstance(n, ast.Assign) and len(n.targets) == 1 and isinstance(n.targets[0], ast.Name)
-              and n.targets[0].id == "counts"]
-    if len(starts) != 1 or ast.dump(starts[0].value) != "Call(func=Name(id='Counter', ctx=Load()), args=[], keywords=[])":
-        raise Refusal(item, "counts is not initialised with Counter()")
+              and ast.dump(n.value) in ("Call(func=Name(id='Counter', ctx=Load()), args=[], keywords=[])",
+                                        "Call(func=Attribute(value=Name(id='collections', ctx=Load()), attr='Counter', ctx=Load()), args=[], keywords=[])")]
+    if len(starts) != 1:
+        raise Refusal(item, "from_list does not initialise exactly one Counter()")
 
     def sx(n):
         """string-valued expression over basename : String, id : Nat"""
@@ -742,19 +747,19 @@ def t8_unique_name():
             if n.conversion != -1 or n.format_spec is not None:
                 raise Refusal(item, "format specification / conversion in the f-string")
             return sx(n.value)
-        if isinstance(n, ast.Name) and n.id == "basename":
+        if isinstance(n, ast.Name) and n.id == v_base:
             return "basename"
-        if isinstance(n, ast.Name) and n.id == "id":
+        if isinstance(n, ast.Name) and n.id == v_id:
             return "(toString id)"
         if isinstance(n, ast.Call) and isinstance(n.func, ast.Name) and n.func.id == "str" and len(n.args) == 1 and not n.keywords:
             return sx(n.args[0])
         if isinstance(n, ast.BinOp) and isinstance(n.op, ast.Add):
-            if isinstance(n.left, ast.Name) and n.left.id == "id" and isinstance(n.right, ast.Constant) and isinstance(n.right.value, int):
+            if isinstance(n.left, ast.Name) and n.left.id == v_id and isinstance(n.right, ast.Constant) and isinstance(n.right.value, int):
                 return f"(toString (id + {n.right.value}))"
             return f"({sx(n.left)} ++ {sx(n.right)})"
         if isinstance(n, ast.IfExp):
             t = n.test
-            if not (isinstance(t, ast.Compare) and len(t.ops) == 1 and isinstance(t.left, ast.Name) and t.left.id == "id"
+            if not (isinstance(t, ast.Compare) and len(t.ops) == 1 and isinstance(t.left, ast.Name) and t.left.id == v_id
                     and isinstance(t.comparators[0], ast.Constant) and isinstance(t.comparators[0].value, int)
                     and not isinstance(t.comparators[0].value, bool) and t.comparators[0].value >= 0):
                 raise Refusal(item, "condition in the f-string is not `id <op> <non-negative int literal>`")
@@ -969,11 +974,12 @@ def t12_graph_interface():
         if isinstance(tg, ast.Name):
             ok = isinstance(v, ast.ListComp) and isinstance(v.elt, ast.Name) and len(v.generators) == 1
             g = v.generators[0] if ok else None
-            ok = ok and isinstance(g.target, ast.Tuple) and [getattr(e, "id", None) for e in g.target.elts] == [v.elt.id, "node"] \
+            ok = ok and isinstance(g.target, ast.Tuple) and len(g.target.elts) == 2 and getattr(g.target.elts[0], "id", None) == v.elt.id \
+                and isinstance(g.target.elts[1], ast.Name) \
                 and ast.dump(g.iter) == "Call(func=Attribute(value=Attribute(value=Name(id='self', ctx=Load()), attr='nodes', ctx=Load()), " \
                                         "attr='items', ctx=Load()), args=[], keywords=[])" \
                 and len(g.ifs) == 1 and isinstance(g.ifs[0], ast.Call) and getattr(g.ifs[0].func, "id", None) == "isinstance" \
-                and len(g.ifs[0].args) == 2 and getattr(g.ifs[0].args[0], "id", None) == "node" and isinstance(g.ifs[0].args[1], ast.Name)
+                and len(g.ifs[0].args) == 2 and getattr(g.ifs[0].args[0], "id", None) == g.target.elts[1].id and isinstance(g.ifs[0].args[1], ast.Name)
             if not ok:
                 raise Refusal(item, f"{tg.id} is not `[k for k, node in self.nodes.items() if isinstance(node, <Class>)]`")
             keys[tg.id] = g.ifs[0].args[1].id
@@ -1029,8 +1035,12 @@ def t13_write_shape():
     if len(inner) != 1:
         raise Refusal(item, "write does not define write_recursive")
     wr = inner[0]
+    if len(wr.args.args) != 2 or len(fn.args.args) != 2:
+        raise Refusal(item, "write / write_recursive do not take two parameters")
+    p_group, p_dict = [a.arg for a in wr.args.args]
+    p_graph = fn.args.args[1].arg
     loops = [st for st in wr.body if isinstance(st, ast.For)]
-    if len(loops) != 1 or ast.dump(loops[0].iter) != "Call(func=Attribute(value=Name(id='node', ctx=Load()), attr='items', ctx=Load()), args=[], keywords=[])":
+    if len(loops) != 1 or ast.dump(loops[0].iter) != f"Call(func=Attribute(value=Name(id='{p_dict}', ctx=Load()), attr='items', ctx=Load()), args=[], keywords=[])":
         raise Refusal(item, "write_recursive is not one loop over node.items()")
     kname = loops[0].target.elts[0].id if isinstance(loops[0].target, ast.Tuple) else None
     vname = loops[0].target.elts[1].id if isinstance(loops[0].target, ast.Tuple) else None
@@ -1059,7 +1069,7 @@ def t13_write_shape():
     ok = len(mb) == 1 and isinstance(mb[0], ast.If) and not mb[0].orelse and \
         ast.dump(mb[0].test) == f"UnaryOp(op=Not(), operand=Compare(left=Name(id='{vname}', ctx=Load()), ops=[Eq()], comparators=[Dict(keys=[], values=[])]))" \
         and len(mb[0].body) == 1 and ast.dump(mb[0].body[0]) == \
-        f"Expr(value=Call(func=Name(id='write_recursive', ctx=Load()), args=[Call(func=Attribute(value=Name(id='group', ctx=Load()), attr='create_group', " \
+        f"Expr(value=Call(func=Name(id='write_recursive', ctx=Load()), args=[Call(func=Attribute(value=Name(id='{p_group}', ctx=Load()), attr='create_group', " \
         f"ctx=Load()), args=[Name(id='{kname}', ctx=Load())], keywords=[]), Name(id='{vname}', ctx=Load())], keywords=[]))"
     if not ok:
         raise Refusal(item, "metadata branch is not `if not v == {}: write_recursive(group.create_group(k), v)`")
@@ -1085,7 +1095,7 @@ def t13_write_shape():
         raise Refusal(item, "second root member is not `<g> = f.create_group(<name>)`")
     nroot = s1.value.args[0].value
     ok = ast.dump(s2) == f"Expr(value=Call(func=Name(id='write_recursive', ctx=Load()), args=[Name(id='{s1.targets[0].id}', ctx=Load()), " \
-        "Call(func=Attribute(value=Name(id='graph', ctx=Load()), attr='to_dict', ctx=Load()), args=[], keywords=[])], keywords=[]))"
+        f"Call(func=Attribute(value=Name(id='{p_graph}', ctx=Load()), attr='to_dict', ctx=Load()), args=[], keywords=[])], keywords=[]))"
     if not ok:
         raise Refusal(item, "the node group is not filled by write_recursive(<g>, graph.to_dict())")
     txt = HEADER + "\nnamespace NirVerif.Generated\n\n" \
